@@ -152,7 +152,7 @@ func init() {
 }
 
 func run(t *T) {
-	n := t.Budget(260)
+	n := t.Budget(400)
 	for i := 0; i < n; i++ {
 		r := t.R.Fork(uint64(i))
 		spec := DrawSpec(r, 6)
